@@ -178,6 +178,23 @@ func OracleDurable(tr *Trace, prop string) []Finding {
 	return fs
 }
 
+func c05Handoff(rng *rand.Rand, j int) *SessSpec {
+	sp := &SessSpec{NumVB: 2 + rng.Intn(3), Nodes: 1, AckSeed: rng.Int63(), Backlog: map[int][][]ItemSpec{}, Backend: []string{"mem", "cb"}[j%2], PNow: 0, PDefer: 1}
+	ctr := 0
+	for vb := 0; vb < sp.NumVB; vb++ {
+		var sn []ItemSpec
+		for k := 0; k < 2+rng.Intn(3); k++ {
+			ctr++
+			sn = append(sn, ItemSpec{K: "m", Key: []byte(fmt.Sprintf("h%d", ctr)), Val: []byte("{}")})
+		}
+		sp.Backlog[vb] = [][]ItemSpec{sn}
+	}
+	a, b := 0, 1+rng.Intn(sp.NumVB-1)
+	sp.Steps = []Step{{Op: "barrier"}, {Op: "ackbg", VB: a}, {Op: "waitbg"}, {Op: "armhook", Sel: "save.marks", N: 1, Ms: 120}, {Op: "commitasync"}, {Op: "sleep", Ms: 40},
+		{Op: "ackbg", VB: b}, {Op: "waitbg"}, {Op: "sleep", Ms: 200}, {Op: "check"}}
+	return sp
+}
+
 func c05Spec(rng *rand.Rand, i int) (*SessSpec, string) {
 	kinds := []string{"plain", "inflight", "fail", "nondoc", "cb", "auto", "cbfault", "file"}
 	kind := kinds[i%len(kinds)]
@@ -351,6 +368,12 @@ func init() {
 					sc.Race = true
 				}
 				out = append(out, sc)
+			}
+			// an acknowledgement that lands exactly between the save's look at the dirty marks and its taking them over (injected
+			// delay at the guarded hook point save.marks): this save or the next one stores it
+			xr := rand.New(rand.NewSource(seed*61 + 23))
+			for j := 0; j < n/20; j++ {
+				out = append(out, drv.Scenario{Kind: "ack-in-handoff", Seed: seed, Params: mustJSON(c05Handoff(xr, j)), TimeoutS: 90})
 			}
 			return out
 		},
